@@ -2,6 +2,7 @@ package gen
 
 import (
 	"fmt"
+	"go.temporal.io/server/common/codec"
 	"math/rand"
 
 	commonpb "go.temporal.io/api/common/v1"
@@ -12,13 +13,13 @@ import (
 )
 
 type PopOpts struct {
-	Rng       *rand.Rand
-	MaxDepth  int
-	NamePool  []string // values for namespace-name fields
-	KeyPool   []string // keys for search-attribute containers
-	FieldProb float64  // probability that an optional field is set
-	BlobEvents int     // max events per history blob
-	StringFn  func(f protoreflect.FieldDescriptor) (string, bool) // override for other string fields
+	Rng        *rand.Rand
+	MaxDepth   int
+	NamePool   []string                                            // values for namespace-name fields
+	KeyPool    []string                                            // keys for search-attribute containers
+	FieldProb  float64                                             // probability that an optional field is set
+	BlobEvents int                                                 // max events per history blob
+	StringFn   func(f protoreflect.FieldDescriptor) (string, bool) // override for other string fields
 }
 
 func (o *PopOpts) pick(pool []string) string { return pool[o.Rng.Intn(len(pool))] }
@@ -168,6 +169,11 @@ func (o *PopOpts) eventBlob(depth int) *commonpb.DataBlob {
 		o.fill(e.ProtoReflect(), d)
 		fixEventTypes(e.ProtoReflect())
 		evs = append(evs, e.(*historypb.HistoryEvent))
+	}
+	if o.Rng.Intn(5) == 0 { // the other encoding the serializer reads
+		if b, err := codec.NewJSONPBEncoder().Encode(&historypb.History{Events: evs}); err == nil {
+			return &commonpb.DataBlob{EncodingType: enumspb.ENCODING_TYPE_JSON, Data: b}
+		}
 	}
 	return EncodeEvents(evs)
 }
